@@ -17,8 +17,15 @@ X86_MODELS = ["zen2", "zen3", "zen4", "spr", "icx", "hsw", "snb", "ivb", "icl", 
 A64_MODELS = ["a64fx", "tx2", "n1", "a72", "tsv110", "m1", "v2"]
 
 
-def gen(rng, isa):
-    """returns (text, expectation) ; expectation: 'edge' | 'noedge' | 'any', plus info"""
+class _Script:
+    """random-like source that replays a fixed list of choices for the `mids` loop (exhaustive small family)"""
+    def __init__(self, rng, script):
+        self.rng, self.script = rng, list(script)
+
+
+def gen(rng, isa, script=None, load_via=None):
+    """returns (text, info).  script: optional list of ('add'|'sub'|'copy', R, R2orK) replacing the random mids;
+    load_via: register the load must go through (if its origin is the store base)"""
     regs = ["rax", "rbx", "rcx"] if isa == "x86" else ["x1", "x2", "x3"]
     other = ["r10", "r11"] if isa == "x86" else ["x10", "x11"]
     B = rng.choice(regs)
@@ -41,7 +48,22 @@ def gen(rng, isa):
     store_txt = ("movq %%rdx, %s" if isa == "x86" else "str x9, %s") % opnd(B, I, S, D)
     lines.append(store_txt)
     killed = False
-    for _ in range(rng.choice([0, 1, 1, 2, 3])):
+    if script is not None:
+        I, S = None, 1
+        lines[0] = store_txt = ("movq %%rdx, %s" if isa == "x86" else "str x9, %s") % opnd(B, None, 1, D)
+        for op, R, X in script:
+            if op == "add":
+                lines.append("addq $%d, %%%s" % (X, R) if isa == "x86" else "add %s, %s, #%d" % (R, R, X))
+                if env[R]:
+                    env[R] = (env[R][0], env[R][1] + X)
+            elif op == "sub":
+                lines.append("subq $%d, %%%s" % (X, R) if isa == "x86" else "sub %s, %s, #%d" % (R, R, X))
+                if env[R]:
+                    env[R] = (env[R][0], env[R][1] - X)
+            else:   # copy X -> R
+                lines.append("movq %%%s, %%%s" % (X, R) if isa == "x86" else "add %s, %s, #0" % (R, X))
+                env[R] = env[X]
+    for _ in range(0 if script is not None else rng.choice([0, 1, 1, 2, 3, 4, 5])):
         k = rng.random()
         R = rng.choice(regs)
         K = rng.choice([8, 16, 4, 32])
@@ -79,6 +101,9 @@ def gen(rng, isa):
     # the load
     want_equal = rng.random() < 0.55
     cands = [r for r in regs if env[r] and env[r][0] == B]
+    if load_via is not None:
+        cands = [r for r in cands if r == load_via]
+        want_equal = bool(cands) and want_equal
     if want_equal and cands and (not I or any(env[r] and env[r][0] == I for r in regs)):
         B2 = rng.choice(cands)
         I2 = rng.choice([r for r in regs if env[r] and env[r][0] == I]) if I else None
@@ -181,6 +206,50 @@ def run(ctx):
                               % (arch, text.replace("\n", " ; ")), rep)
         if len(cases) < 3:
             ctx.sample({"arch": arch, "kernel": text, "provably_equal": info["equal"], "links": links})
+        cases.append(case)
+    # exhaustive small family: every sequence of <= 4 bumps/copies over two address registers, load through either
+    import itertools
+    fam = []
+    for isa in ("x86", "aarch64"):
+        a, b = ("rax", "rbx") if isa == "x86" else ("x1", "x2")
+        ops = [("add", a, 8), ("add", b, 8), ("copy", b, a), ("copy", a, b), ("sub", a, 16)]
+        for L in range(1, 5):
+            for seq in itertools.product(ops, repeat=L):
+                if any(o[0] == "copy" for o in seq):
+                    for via in (a, b):
+                        fam.append((isa, seq, via))
+    ctx.rng.shuffle(fam)
+    ctx.coverage["scripted_family_size"] = len(fam)
+    for isa, seq, via in fam[:ctx.n(260, len(fam))]:
+        ms = [m for m in (X86_MODELS if isa == "x86" else A64_MODELS) if m in avail]
+        arch = ms[0]
+        if arch not in pipes:
+            pipes[arch] = deps.Pipeline(ctx, isa, arch=arch)
+        for attempt in range(2):
+            text, info = gen(ctx.rng, isa, script=seq, load_via=via)
+            if info["load"][0] == via:
+                break
+        rep = {"isa": isa, "arch": arch, "text": text}
+        try:
+            case, kernel, dg = deps.build_case(pipes[arch], text, False, with_lcd=False, with_cp=False)
+        except Exception as e:  # noqa
+            ctx.violation("memdep-raises", "analysis of a store/load kernel raises %r" % e, rep)
+            continue
+        case["origin"] = "scripted on " + arch
+        ctx.count()
+        last = info["n"]
+        links = {u: w for (u, ld, v), w in case["edges"].items() if not ld and v == last and u == 1}
+        if info["equal"]:
+            hist["equal"] += 1
+            ctx.nontriv(text)
+            if 1 not in links:
+                ctx.violation("store-load-edge-missing", "%s: load provably reads the location stored by line 1 but no dependency: %s"
+                              % (arch, text.replace("\n", " ; ")), rep)
+        else:
+            hist["different"] += 1
+            if links and concrete_differs(info, ctx.rng):
+                ctx.violation("store-load-edge-spurious", "%s: dependency reported although the addresses differ: %s"
+                              % (arch, text.replace("\n", " ; ")), rep)
         cases.append(case)
     # symbolic displacement (crash class fixed in /repo)
     for isa, arch, text in (("x86", "zen2", "movq %rax, foo(%rip)\nmovq 8(%rbx), %rcx\n"), ("aarch64", "a64fx", "str x1, [x2, :lo12:foo]\nldr x3, [x4, #8]\n")):
